@@ -1499,7 +1499,7 @@ def generate(template_path, flavour, repo="/repo", vacuity=False, rules=None, ba
         g.linemap.append((start, end, b.id))
         g.fns.append(dict(id=b.id, file=b.file, name=b.name, line_start=ex["line_start"], line_end=ex["line_end"], text=real_text, renamed=rmap,
                           hash=h, props=b.props, rules=stats, novac=b.novac or b.extern_body, hints_lost=hints_lost, hints_inexact=inexact, guards=guards, heap=b.heap,
-                          gen_start=start, gen_end=end, has_ensures=any(re.match(r"\s*ensures\b", s) for s in b.spec)))
+                          gen_start=start, gen_end=end, text_builder=b.text, has_ensures=any(re.match(r"\s*ensures\b", s) for s in b.spec)))
         for k, v in stats.items():
             g.stats[k] = g.stats.get(k, 0) + v
     g.lines = out
